@@ -242,12 +242,36 @@ func (p *pools) device() model.Device {
 	st := []model.DeviceState{0, 1, 8}[rng.Intn(3)] // the three defined states (the service reports any other as DISABLED)
 	return model.Device{DeviceEUI: p.eui(), DevAddr: protocol.DevAddrFromUint32(p.ad()), AppKey: someKey(rng), AppSKey: someKey(rng),
 		NwkSKey: someKey(rng), AppEUI: p.app(), State: st, FCntUp: someU16(rng), FCntDn: someU16(rng),
-		RelaxedCounter: rng.Intn(2) == 0, KeyWarning: rng.Intn(2) == 0, Tag: someTag(rng)}
+		RelaxedCounter: rng.Intn(2) == 0, KeyWarning: rng.Intn(2) == 0, Tag: someTag(rng), DevNonceHistory: someHistory(rng)}
+}
+
+// the nonce log a caller may leave in the struct it hands to CreateDevice / UpdateDevice (the storage
+// layer keeps nonces in their own table, fed by AddDevNonce; what is in the struct is not stored)
+func someHistory(rng *rand.Rand) []uint16 {
+	switch rng.Intn(4) {
+	case 0:
+		return []uint16{someU16(rng)}
+	case 1:
+		a := someU16(rng)
+		return []uint16{a, someU16(rng), a}
+	default:
+		return nil
+	}
 }
 func devText(d model.Device) string {
 	return fmt.Sprintf("%s,%08x,%s,%s,%s,%s,%d,%d,%d,%s,%s,%s", rEUI(d.DeviceEUI), d.DevAddr.ToUint32(), hx(d.AppKey.Key[:]),
 		hx(d.AppSKey.Key[:]), hx(d.NwkSKey.Key[:]), rEUI(d.AppEUI), uint8(d.State), d.FCntUp, d.FCntDn, rB(d.RelaxedCounter),
-		rB(d.KeyWarning), rTxt(d.Tag))
+		rB(d.KeyWarning), rTxt(d.Tag)) + "," + histText(d.DevNonceHistory)
+}
+func histText(h []uint16) string {
+	if len(h) == 0 {
+		return "-"
+	}
+	s := make([]string, len(h))
+	for i, v := range h {
+		s[i] = fmt.Sprint(v)
+	}
+	return strings.Join(s, "+")
 }
 func (p *pools) gateway() model.Gateway {
 	rng := p.rng
